@@ -18,7 +18,7 @@ ENGINES = [
                            'C16', 'C17', 'C18', 'C19', 'C20'],
      'kind_free_text': 'itertools enumeration of small finite sub-domains, sharded by stride over processes'},
     {'name': 'atheris', 'path': 'vlib/fuzzworker.py',
-     'serves_properties': ['C02'],
+     'serves_properties': ['C02', 'C03', 'C10'],
      'kind_free_text': 'atheris 3.x / libFuzzer coverage-guided campaign (branch coverage of mitxgraders + pyparsing) '
                        'whose byte strings are decoded by Hypothesis fuzz_one_input through the same structured strategy '
                        'and judged by the same oracle as the random part; thorough tier only (parts of kind fuzz); '
